@@ -215,8 +215,9 @@ func findTypeViolation(
 	// Check both full path and package name
 	isAllowed := ctx.packageOnlyIndex.HasPkgTypeAttachment(pkgPath, typeName, ctx.currentPkgPath)
 
-	// Also check by extracting package name from path
-	if !isAllowed {
+	// Also check by package name. The declaring package's own path is always in the list: when
+	// that path is a single element, a foreign package that merely carries it as its name is not meant
+	if !isAllowed && ctx.currentPkgName != pkgPath {
 		isAllowed = ctx.packageOnlyIndex.HasPkgTypeAttachment(pkgPath, typeName, ctx.currentPkgName)
 	}
 
@@ -262,8 +263,9 @@ func findFunctionViolation(
 	// Check both full path and package name
 	isAllowed := ctx.packageOnlyIndex.HasPkgFunctionAttachment(pkgPath, funcName, ctx.currentPkgPath)
 
-	// Also check by extracting package name from path
-	if !isAllowed {
+	// Also check by package name. The declaring package's own path is always in the list: when
+	// that path is a single element, a foreign package that merely carries it as its name is not meant
+	if !isAllowed && ctx.currentPkgName != pkgPath {
 		isAllowed = ctx.packageOnlyIndex.HasPkgFunctionAttachment(pkgPath, funcName, ctx.currentPkgName)
 	}
 
@@ -303,8 +305,9 @@ func findMethodViolation(
 	// Check both full path and package name
 	isAllowed := ctx.packageOnlyIndex.HasPkgTypeMethodAttachment(pkgPath, typeName, methodName, ctx.currentPkgPath)
 
-	// Also check by extracting package name from path
-	if !isAllowed {
+	// Also check by package name. The declaring package's own path is always in the list: when
+	// that path is a single element, a foreign package that merely carries it as its name is not meant
+	if !isAllowed && ctx.currentPkgName != pkgPath {
 		isAllowed = ctx.packageOnlyIndex.HasPkgTypeMethodAttachment(pkgPath, typeName, methodName, ctx.currentPkgName)
 	}
 
